@@ -394,7 +394,7 @@ def parse_program(program, filename_fmt="features/f%d.feature"):
 
 
 def run_program(program, formatters=None, reporters=None, features=None, config=None,
-                observers=None, keep_stdout=False, setup=None):
+                observers=None, keep_stdout=False, setup=None, runner=None):
     """Run the program through ModelRunner; returns RunResult with
     .failed .features .calls .hooks .cleanup_log .stdout .escaped(exception or None) .runner .config
     """
@@ -415,7 +415,13 @@ def run_program(program, formatters=None, reporters=None, features=None, config=
         features, texts = parse_program(program)
     from behave.runner import ModelRunner
     registry = build_registry(plan)
-    runner = ModelRunner(config, features, step_registry=registry)
+    if runner is None:
+        runner = ModelRunner(config, features, step_registry=registry)
+    else:
+        # the same runner object runs again (public API: runner.run() may be called more than once)
+        runner.config = config
+        runner.features = features
+        runner.step_registry = registry
     runner.hooks = make_hooks(plan)
     if formatters:
         runner.formatters = formatters(config) if callable(formatters) else list(formatters)
